@@ -5,7 +5,7 @@ import tarfile
 
 from hypothesis import strategies as st
 
-from .. import projgen, trees
+from .. import fsorder, projgen, trees
 from ..isolate import run_cond
 from ..runner import Outcome
 
@@ -16,7 +16,8 @@ RULE = ("A valid archive of 1-5 versions (built by the real `cond archive` from 
         "offset; one byte flipped; not a tar / empty file / a directory / missing path; one or several archive rows already "
         "recorded in the destination (first/middle/last); destination directory of one version already present but unrecorded; "
         "destination package directory is a file; Conductor killed (os._exit, no cleanup) at the k-th executed Python line of the "
-        "restore command (quick: Hypothesis-drawn k + stride sweep of 2 fixed scenarios; thorough: every line, incl. shutil.py); "
+        "restore command (quick: Hypothesis-drawn k + stride sweep of 2 fixed scenarios; thorough: every line, incl. shutil.py; half of the "
+        "generated cases also count the lines of shutil.py, i.e. kill inside copytree/rmtree, under a generated directory-listing order); "
         "or no fault. x prior destination state (empty / unrelated versions / other versions of the same tasks). Oracle: on "
         "failure or kill, rows read through a fresh sqlite connection == rows before and every previously recorded directory is "
         "byte-identical; on reported success every archive row is recorded and its directory equals the archived tree. "
@@ -26,7 +27,7 @@ ASSUMPTIONS = ["process-kill semantics at Python-line granularity (sqlite's own 
                "new, unrecorded directories may be left behind by a failed restore (the property allows that)"]
 ESSENTIAL = ["dup_row_not_first", "missing_dir_not_first", "kill_after_first_copy", "kill_between_last_copy_and_commit",
              "truncated_stream", "preexisting_unrecorded_dir", "no_fault_success", "missing_index", "prior_same_task_other_ts",
-             "not_a_tar", "byte_flip"]
+             "not_a_tar", "byte_flip", "kill_inside_shutil", "generated_listing_order"]
 TECHNIQUE = "fault injection: generated archive corruptions + every executed line of `cond restore` as a kill point (sys.settrace, os._exit); all-or-nothing oracle over rows and tree snapshots"
 LEVEL_TEXT = ("Structural and byte-level archive faults are generated; crash points are enumerated per Python line for fixed scenarios "
               "(every line in thorough) and sampled for generated ones. Judged on index rows read afresh and on tree snapshots.")
@@ -55,6 +56,9 @@ def _case(draw, tier):
     case = {"rows": rows, "fault": fault, "pos": draw(st.sampled_from(range(5))), "frac": draw(st.sampled_from(range(1000))),
             "prior": draw(st.sampled_from(["empty", "unrelated", "same_task", "stale_staging"])), "ndup": draw(st.sampled_from([1, 1, 2])),
             "not_tar": draw(st.sampled_from(["garbage", "empty", "dir", "missing"]))}
+    # kill points inside shutil.copytree/rmtree as well, and the order in which directory entries are listed
+    case["deep"] = draw(st.booleans())
+    case["order"] = draw(st.sampled_from(["fs", "fs", "sorted", "reversed", 1, 2]))
     return case
 
 
@@ -90,9 +94,14 @@ def enumerate_cases(tier, w, nworkers):
             idx += 1
 
 
-def _files(tier):
+def _files(tier, deep=False):
     base = (os.path.join(os.path.realpath(os.environ.get("VERIF_REPO", "/repo")), "src", "conductor"),)
-    return base + ((SHUTIL,) if tier == "thorough" else ())
+    return base + ((SHUTIL,) if tier == "thorough" or deep else ())
+
+
+def _pre(case):
+    order = case.get("order", "fs")
+    return (lambda res_: fsorder.install(order)) if order != "fs" else None
 
 
 def prepare(case, work):
@@ -155,12 +164,12 @@ def repack(arch, out, drop_prefix=None, drop_index=False):
 
 
 def count_lines(case, tier="quick"):
-    key = (repr(case["rows"]), case["prior"], tier)
+    key = (repr(case["rows"]), case["prior"], tier, case.get("deep"), case.get("order"))
     if key not in _NLINES:
         work = projgen.new_scratch("c12n")
         try:
             arch, dst, rows, src = prepare(case, work)
-            res = run_cond(dst, ["restore", arch], inject={"mode": "count", "files": _files(tier)})
+            res = run_cond(dst, ["restore", arch], inject={"mode": "count", "files": _files(tier, case.get("deep"))}, pre=_pre(case))
             _NLINES[key] = res.get("lines", 0)
         finally:
             projgen.rm(work)
@@ -256,7 +265,7 @@ def _run(case, work):
     if fault == "kill":
         n = count_lines(case, tier)
         k = case["k"] if "k" in case else 1 + case["frac"] * n // 1000
-        inject = {"mode": "kill", "at": k, "files": _files(tier)}
+        inject = {"mode": "kill", "at": k, "files": _files(tier, case.get("deep"))}
     if case["prior"] == "same_task":
         labels.add("prior_same_task_other_ts")
     if case["prior"] == "stale_staging":
@@ -264,7 +273,7 @@ def _run(case, work):
     rows_before = projgen.read_rows(dst)
     snap_before = trees.snapshot(os.path.join(dst, "cond-out"))
     recorded_dirs = {os.path.relpath(projgen.version_dir(dst, t, ts), os.path.join(dst, "cond-out")) for t, ts, _, _ in rows_before}
-    res = run_cond(dst, ["restore", target_arch], inject=inject, timeout=180)
+    res = run_cond(dst, ["restore", target_arch], inject=inject, timeout=180, pre=_pre(case))
     rows_after = projgen.read_rows(dst)
     snap_after = trees.snapshot(os.path.join(dst, "cond-out"))
     killed = res["status"] == "killed"
@@ -273,6 +282,10 @@ def _run(case, work):
     if killed:
         inj = res.get("inject") or {}
         summary["killed_at"] = "%s:%s %s" % (inj.get("file"), inj.get("line"), inj.get("func"))
+        if str(inj.get("file", "")).endswith("shutil.py"):
+            labels.add("kill_inside_shutil")
+        if case.get("order", "fs") != "fs":
+            labels.add("generated_listing_order")
         copied = [r for r in rows if os.path.isdir(projgen.version_dir(dst, r[0], r[1])) and
                   os.path.relpath(projgen.version_dir(dst, r[0], r[1]), os.path.join(dst, "cond-out")) not in recorded_dirs]
         if copied:
